@@ -39,7 +39,8 @@ ServerUDP(sh) ==
                "stunLenShort", "stunLenFFEC", "attrOverrun", "respSuccess", "respError", "indBinding", "indAllocate",
                "reqUnknownMethod", "dataInd"} -> Silent
     [] sh \in {"cdUnbound", "sendNoPerm", "sendNoData", "sendNoPeer"} -> Silent
-    [] sh = "cdBound"    -> IF st = "udp" THEN Relay ELSE Silent        \* a TCP allocation has no datagram relay
+    [] sh \in {"cdBound", "cdBoundCookie"} -> IF st = "udp" THEN Relay ELSE Silent   \* a TCP allocation has no datagram relay
+       \* (cdBoundCookie: the data begins with the STUN magic cookie -- ChannelData all the same)
     [] sh = "sendOK"     -> IF st = "udp" THEN Relay ELSE Silent
     [] sh = "bindingOK"  -> RespC(0)                                   \* success
     [] sh = "bindingUnkOpt" -> RespC(0)                                \* unknown comprehension-optional: ignored
@@ -57,7 +58,7 @@ ServerStream(sh) ==
     [] sh = "bindingOK" -> RespC(0)
     [] sh = "bindingUnkReq" -> RespC(420)
     [] sh = "allocNoAuth" -> RespC(401)
-    [] sh \in {"cdUnbound", "respSuccess", "indBinding"} -> Silent
+    [] sh \in {"cdUnbound", "cdUnboundCookie", "respSuccess", "indBinding"} -> Silent
 
 (* ---- client (Client.HandleInbound, the table in client.go) ---- *)
 Cl(h, e) == [k |-> "classified", handled |-> h, err |-> e]
@@ -68,7 +69,7 @@ Client(sh) ==
     [] sh \in {"dataIndNoPeer", "dataIndNoData", "attemptNoPeer", "attemptNoID"} -> Cl(TRUE, TRUE)
     [] sh = "dataIndOK" -> Cl(TRUE, FALSE)
     [] sh = "attemptOK" -> Cl(TRUE, FALSE)
-    [] sh = "cdKnown" -> Cl(TRUE, FALSE)
+    [] sh \in {"cdKnown", "cdKnownCookie"} -> Cl(TRUE, FALSE)
     [] sh = "cdUnknown" -> IF st = "udp" THEN Cl(TRUE, TRUE) ELSE Cl(TRUE, FALSE)    \* no relayed UDP socket: discarded silently
     [] sh = "cdLenOver" -> Cl(FALSE, FALSE)                                          \* not ChannelData, not STUN: app data
     [] sh = "nonStunFromServer" -> Cl(TRUE, TRUE)
@@ -93,16 +94,16 @@ View == st
 C09_Total == [][\A o \in out' : o.k \in {"outcome", "classified", "any"}]_vars
 C09_ClosedOnlyStreams == [][\A o \in out' : (o.k = "outcome" /\ o.cls = "closed") => Mode = "server-stream"]_vars
 
-MCServerUDP == {"empty", "one", "three", "short19", "cdLenOver", "cdInvalidNum", "cdUnbound", "cdBound", "stunBadCookie",
+MCServerUDP == {"empty", "one", "three", "short19", "cdLenOver", "cdInvalidNum", "cdUnbound", "cdBound", "cdBoundCookie", "stunBadCookie",
                 "stunLenLong", "stunLenShort", "stunUnaligned", "stunLenFFEC", "attrOverrun", "respSuccess", "respError",
                 "indBinding", "indAllocate", "reqUnknownMethod", "dataInd", "sendOK", "sendNoPerm", "sendNoData", "sendNoPeer",
                 "bindingOK", "bindingUnkOpt", "bindingUnkReq", "allocUnkReq", "allocNoAuth", "refreshNoAuth", "cpNoAuth",
                 "cbNoAuth", "connectNoAuth", "cbindNoAuth", "allocDupAttrs", "mutated"}
 MCServerStream == {"junk20", "stunBadCookie", "prefixStunFFEC", "prefixChanFFFF", "prefix3", "empty", "bindingOK",
-                   "bindingUnkReq", "allocNoAuth", "cdUnbound", "respSuccess", "indBinding", "mutated"}
+                   "bindingUnkReq", "allocNoAuth", "cdUnbound", "cdUnboundCookie", "respSuccess", "indBinding", "mutated"}
 MCClient == {"appData", "empty", "one", "short19", "stunTruncated", "stunAttrOverrun", "request", "respUnknownTx",
              "indUnknownMethod", "dataIndNoPeer", "dataIndNoData", "dataIndOK", "attemptNoPeer", "attemptNoID", "attemptOK",
-             "cdKnown", "cdUnknown", "cdLenOver", "nonStunFromServer", "burstData", "burstAttempts", "mutated"}
+             "cdKnown", "cdKnownCookie", "cdUnknown", "cdLenOver", "nonStunFromServer", "burstData", "burstAttempts", "mutated"}
 ASSUME PrintT("META " \o ToJson([Sys |-> "dispatch", Extra |-> [mode |-> Mode]]))
 EmitEdge == PrintT("EDGE " \o ToJson([s |-> [st |-> st], a |-> last', o |-> out', t |-> [st |-> st']]))
 =============================================================================
